@@ -136,7 +136,9 @@ def run(ctx):
     texts += ["31.04.2020 for 1 day", "31.04.2020 8:00 - 9:00", "early early early early morning", "tomorrow for 99999999999 days",
               "heute für 99999999999999999999 monate", "#", "##", "#tag", "#1abc", "# tag", "a" * 300, "8 " * 6, "mon " * 5,
               "1.1.1", "31.12.9999", "31.12.9999 for 2 days", "0 uhr", "24:00", "99:99", "12am", "0am", "13pm", "feb 30 2019",
-              "29.2.2100", "29.02.00", "31.", "31. 31. 31.", "- - -", "to to to", "am um at", "von bis", "between and"]
+              "29.2.2100", "29.02.00", "31.", "31. 31. 31.", "- - -", "to to to", "am um at", "von bis", "between and",
+              # long gap-free runs of one kind of token: the model's log-odds get extreme (hundreds of nats)
+              "-/" * 200, "- " * 300, "to " * 200, "and " * 150, "#x " + "–" * 1 + " -" * 350, "monday " * 40]
     texts += [t for t, _ in corpus_texts()[::7 if ctx.quick else 1]]
     tss = [(1970, 1, 1, 0, 0, 0, 0), (2100, 12, 31, 23, 59, 59, 999999), (2020, 2, 29, 12, 0, 30, 5), (2019, 2, 28, 23, 59, 59, 1),
            (2018, 1, 31, 0, 0), (2018, 12, 31, 12, 0), (2000, 2, 29, 6, 6, 6), (2018, 3, 7, 12, 43), None, (2099, 1, 1, 0, 0), (1999, 12, 31, 23, 59, 59)]
@@ -145,7 +147,10 @@ def run(ctx):
         nm, ns = engine.text_size(t)
         combos = list(itertools.product((1, 0), (10, 1, 0), (1.0, 0.5, 0.1), ("shipped", "dummy", "random", "fallback")))
         rnd.shuffle(combos)
-        for (latent, depth, rel, scorer) in combos[:3 if ctx.quick else 10]:
+        picked = combos[:3 if ctx.quick else 10]
+        if not any(c[3] == "shipped" and c[1] == 10 for c in picked):
+            picked = picked + [(1, 10, 1.0, "shipped")]      # every text at least once under the defaults (shipped model)
+        for (latent, depth, rel, scorer) in picked:
             if depth == 0 and (nm > 8 or ns > 30):
                 depth = 10
             cases.append({"text": t, "ts": rnd.choice(tss), "latent": latent, "depth": depth, "rel": rel, "scorer": scorer,
